@@ -3,7 +3,7 @@
     sumbool, comparison -> OCaml natives); N, Z, positive, byte stay Coq
     datatypes.  No Extract Constant of ours. *)
 From Coq Require Import Extraction ExtrOcamlBasic.
-From Verif Require Import Bytes Crc32 Codec Dec ListDS SetDS ZSetDS Index Engine Spec.
+From Verif Require Import Bytes Crc32 Codec Dec ListDS SetDS ZSetDS Index Engine Spec Merge.
 Extraction Language OCaml.
 Set Extraction KeepSingleton.
 Extraction "model.ml"
@@ -11,7 +11,7 @@ Extraction "model.ml"
   encode_entry decode_at entry_size
   encode_rootidx decode_rootidx_at
   encode_bucketmeta decode_bucketmeta
-  step empty_world do_open do_commit spec_step sworld0
+  step empty_world do_open do_commit do_merge spec_step sworld0
   l_size l_rpush l_lpush l_lpeek l_rpeek l_lpop l_rpop l_lrange l_lrem l_lremnum l_lset l_ltrim
   s_sadd s_srem s_haskey s_card s_ismember s_aremembers s_members s_diff s_union s_inter s_move s_spop
   z_put z_remove z_find z_peekmin z_peekmax z_popmin z_popmax z_rankrange z_scorerange z_rank z_revrank.
